@@ -23,6 +23,7 @@ import random
 import sys
 
 from coqrun import coq_eval, parse_nat_list
+from discovery import children_in_visit_order
 
 VA, VK = 1, 2
 # attribute ids -> real method names (all take one constant argument)
@@ -254,12 +255,7 @@ def enc_py(node, out):
     elif isinstance(node, (ast.FunctionDef, ast.Nonlocal)):
         raise ValueError('not in the grammar')
     else:
-        children = []
-        for _f, value in ast.iter_fields(node):
-            if isinstance(value, list):
-                children.extend(v for v in value if isinstance(v, ast.AST))
-            elif isinstance(value, ast.AST):
-                children.append(value)
+        children = children_in_visit_order(node)
         out += [7, len(children)]
         for c in children:
             enc_py(c, out)
@@ -904,12 +900,7 @@ def enc_py_n(node, out):
         for k in node.keywords:
             enc_py_n(k, out)
         return
-    children = []
-    for _f, value in ast.iter_fields(node):
-        if isinstance(value, list):
-            children.extend(v for v in value if isinstance(v, ast.AST))
-        elif isinstance(value, ast.AST):
-            children.append(value)
+    children = children_in_visit_order(node)
     out += [7, len(children)]
     for c in children:
         enc_py_n(c, out)
